@@ -296,6 +296,32 @@ def judge(module, cfg, records, *, workers=None, keep=None, timeout=3600, extra_
     <<"DIV", id, what>> for M-divergences.  Acceptance (every record was consumed) is checked by the
     caller through Result.distinct (one or more states per record).
     """
+    # large traces are judged in slices: TLC deserialises the whole file into one value, and beyond a few hundred MB the
+    # heap thrashes (a 120k-record slice once took 40 minutes instead of one)
+    if len(records) > 2000 and keep is None:
+        lines = [json.dumps(r, separators=(",", ":"), ensure_ascii=True) for r in records]
+        limit, slices, cur, size = int(os.environ.get("VERIF_SLICE_BYTES", 40000000)), [], [], 0
+        for r, ln in zip(records, lines):
+            if cur and size + len(ln) > limit:
+                slices.append(cur)
+                cur, size = [], 0
+            cur.append(r)
+            size += len(ln)
+        slices.append(cur)
+        if len(slices) > 1:
+            total = None
+            for sl in slices:
+                r = judge(module, cfg, sl, workers=workers, keep="", timeout=timeout, extra_env=extra_env)
+                if total is None:
+                    total = r
+                else:
+                    total.generated += r.generated
+                    total.distinct += r.distinct
+                    total.tuples.extend(r.tuples)
+                    total.output += r.output[-2000:]
+                    total.wall += r.wall
+                    total.invariant_violated = total.invariant_violated or r.invariant_violated
+            return total
     d = scratch("judge-")
     try:
         path = os.path.join(d, "trace.ndjson")
